@@ -21,17 +21,17 @@ import (
 const c04NPid = 600
 
 type c04Scenario struct {
-	Tier   int            `json:"tier"`
-	Min    int            `json:"min"`
-	Max    int            `json:"max"`
-	Never  bool           `json:"neverStop"`
-	Kind   string         `json:"kind"`
-	Loop   sim.LoopSpec   `json:"loop"`
-	TickMs int            `json:"tickMs"`
-	Prefix []sim.Step     `json:"prefix"`
-	Cv     int            `json:"cv"`
-	Tail   int            `json:"tail"`
-	Order  []int          `json:"order,omitempty"` // tier 1: visiting order of curve values
+	Tier   int          `json:"tier"`
+	Min    int          `json:"min"`
+	Max    int          `json:"max"`
+	Never  bool         `json:"neverStop"`
+	Kind   string       `json:"kind"`
+	Loop   sim.LoopSpec `json:"loop"`
+	TickMs int          `json:"tickMs"`
+	Prefix []sim.Step   `json:"prefix"`
+	Cv     int          `json:"cv"`
+	Tail   int          `json:"tail"`
+	Order  []int        `json:"order,omitempty"` // tier 1: visiting order of curve values
 }
 
 func (sc c04Scenario) fan() sim.FanSpec {
